@@ -26,3 +26,12 @@ CASES = [
         ('src/library/log/files/counted.cpp', "void Counted::rollFiles()\n{\n", "void Counted::rollFiles()\n{\n   mNumberOfEntries = 0;\n"),
     ]),
 ]
+
+CASES += [
+    dict(id='c15-roll-range-from-state', prop='C15', file='src/library/log/files/counted.cpp', expect='R4',
+         old="   for (int file_nbr = mMaxGenerations - 1; file_nbr > 0; --file_nbr)", new="   for (int file_nbr = static_cast< int>( mNumberOfEntries) - 1; file_nbr > 0; --file_nbr)"),
+    dict(id='c15-roll-stops-at-two', prop='C15', file='src/library/log/files/counted.cpp', expect='R4',
+         old="   for (int file_nbr = mMaxGenerations - 1; file_nbr > 0; --file_nbr)", new="   for (int file_nbr = mMaxGenerations - 1; file_nbr > 1; --file_nbr)"),
+    dict(id='c15-eq-roll-ge-one', prop='C15', file='src/library/log/files/counted.cpp', expect=None,
+         old="   for (int file_nbr = mMaxGenerations - 1; file_nbr > 0; --file_nbr)", new="   for (int file_nbr = mMaxGenerations - 1; file_nbr >= 1; --file_nbr)"),
+]
